@@ -1,6 +1,7 @@
 import ElaVerif.Model.Distribute
 import ElaVerif.Lemmas.Distribute
 import ElaVerif.Lemmas.DistributeFloat
+import ElaVerif.Gen.C27
 /-!
 # C27 — DPoS reward distribution never pays out more than the pool
 
@@ -216,5 +217,82 @@ theorem C27_conservation_false :
     [(.arb 0, 1331811250), (.arb 1, 61263317500), (.arb 2, 85235920000), (.destroy, 43949771250)] 43949771250
     (by decide) (by decide)
   exact absurd this (by decide)
+
+/-! ### the bookkeeping around the distribution (accumulateReward / clearingDPOSReward / forceChange)
+    and the coinbase validator (compared with the real functions by the `book` stream) -/
+
+/-- **A clearing hands out exactly what it takes in**: the pool it distributes plus what it carries
+    forward is the accumulated reward plus the clearing block's own reward — for the regular round
+    change (pool = accumulated + block, nothing carried) and for the forced change (pool =
+    accumulated, the block's reward carried) alike; the round reward and change it records are
+    those of `distributeDPOSReward` on that pool. -/
+theorem C27_clearing_conserves (dist : Fixed64 → Option (RMap × Fixed64)) (smooth : Bool) (b : Fixed64)
+    (s s' : Book) (h : clearing dist smooth b s = some s') :
+    (clearingPool smooth b s).1 + s'.acc = s.acc + b ∧
+    dist (clearingPool smooth b s).1 = some (s'.rr, s'.change) := by
+  unfold clearing at h
+  cases smooth <;> simp only [clearingPool, Bool.false_eq_true, if_false, if_true] at h ⊢
+  · split at h
+    · cases h
+    · rename_i m change heq
+      cases h
+      exact ⟨rfl, heq⟩
+  · split at h
+    · cases h
+    · rename_i m change heq
+      cases h
+      refine ⟨?_, heq⟩
+      simp
+
+/-- an ordinary block adds its own reward to the pool, or nothing (right after a forced change
+    once CR voting has started) — never more -/
+theorem C27_accumulate (voting : Bool) (b : Fixed64) (s : Book) :
+    ((accumulate voting b s).acc = s.acc + b ∨ (accumulate voting b s).acc = s.acc) ∧
+    (accumulate voting b s).rr = [] ∧ (accumulate voting b s).change = 0 := by
+  unfold accumulate
+  simp only []
+  split <;> simp
+
+/-- the coinbase validator accepts exactly the reward outputs that are as many as the entries of
+    the round reward and each pay a known recipient its recorded amount -/
+theorem C27_coinbase_round_check (rr : RMap) (outs : List (Key × Fixed64)) :
+    coinbaseRoundCheck rr outs = true ↔
+      rr.length = outs.length ∧ ∀ o ∈ outs, rr.get o.1 = some o.2 := by
+  unfold coinbaseRoundCheck
+  simp [List.all_eq_true]
+
+/-- **… which is not "every recipient exactly once"**: a coinbase that pays the first recipient
+    twice and drops the last one passes, so the reward outputs can add up to more than the round
+    reward (replayed on the real CheckCoinbaseArbitratorsReward; known finding
+    C27-coinbase-duplicate-recipient). -/
+theorem C27_coinbase_round_check_overpay_false :
+    ¬ (∀ (rr : RMap) (outs : List (Key × Fixed64)), coinbaseRoundCheck rr outs = true →
+        sumZ (outs.map (·.2)) ≤ sumZ (rr.map (·.2))) := by
+  intro h
+  have := h [(.arb 0, 10), (.arb 1, 1)] [(.arb 0, 10), (.arb 0, 10)] (by decide)
+  exact absurd this (by decide)
+
+/-! ### T-gen -/
+
+/-- the callers: forceChange clears with `smoothClearing = false` (what the hook re-enacts), the
+    regular round change with `true`, ordinary blocks accumulate; clearingDPOSReward distributes the
+    accumulated reward (plus the block's only when smooth) and carries the block's otherwise; the
+    coinbase validator compares every output from index 2 on -/
+theorem C27_gen_callers :
+    Gen.C27.rewardCalls =
+      ["forceChange: a.clearingDPOSReward(block, block.Height, false)",
+       "IncreaseChainHeight: a.clearingDPOSReward(block, block.Height, true)",
+       "IncreaseChainHeight: a.accumulateReward(block, confirm)",
+       "IncreaseChainHeight: a.clearingDPOSReward(block, block.Height, true)",
+       "IncreaseChainHeight: a.accumulateReward(block, confirm)",
+       "AccumulateReward: a.accumulateReward(block, confirm)",
+       "clearingDPOSReward: a.distributeDPOSReward(block.Height, accumulativeReward)"] ∧
+    Gen.C27.clearingStatements.take 3 =
+      ["dposReward := a.getBlockDPOSReward(block)", "accumulativeReward := a.accumulativeReward",
+       "if smoothClearing { accumulativeReward += dposReward dposReward = 0 }"] ∧
+    Gen.C27.coinbaseRoundCheck =
+      ["if len(rewards) != len(coinbase.Outputs())-2", "for i := 2; i < len(coinbase.Outputs()); i++",
+       "if !ok", "if amount != coinbase.Outputs()[i].Value"] := by
+  decide +kernel
 
 end ElaVerif.C27
